@@ -4,10 +4,13 @@ import sys, os, subprocess, tempfile, shutil
 sys.path.insert(0, '/verif')
 patch = os.path.abspath(sys.argv[1])
 rules = [a for a in sys.argv[2:] if not a.startswith('-')]
+if any(a.startswith('--fam=') for a in sys.argv) and not rules:
+    rules = ['NONE']
 wt = tempfile.mkdtemp(prefix='mutest.', dir='/tmp')
 os.rmdir(wt)
 subprocess.check_call(['git', '-C', '/repo', 'worktree', 'add', '-q', '--detach', wt, 'HEAD'])
 try:
+    shutil.copy('/repo/Cargo.lock', os.path.join(wt, 'Cargo.lock'))
     subprocess.check_call(['git', '-C', wt, 'apply', patch])
     from vlib import engine
     import vlib.allrules
@@ -32,6 +35,18 @@ try:
             for v in res.violations:
                 total += 1
                 print('!! [%s] %s %s | %s' % (cfg, v.key, v.where.replace(wt + '/', ''), v.msg))
+    fams = [a.split('=')[1] for a in sys.argv if a.startswith('--fam=')]
+    if fams:
+        from vlib import witness, families
+        known = {k['key'] for k in engine.load_known() if k.get('status') == 'known'}
+        for fam in fams:
+            res = witness.FAMILIES[fam].run(ctx, 'thorough' if '--thorough' in sys.argv else 'quick', 0)
+            for v in res['violations']:
+                if v.key in known:
+                    continue
+                total += 1
+                print('!! [witness] %s | %s' % (v.key, v.msg[:200]))
+            print(fam, 'programs', res['programs'])
     print('TOTAL', total)
 finally:
     subprocess.call(['git', '-C', '/repo', 'worktree', 'remove', '--force', wt])
@@ -39,3 +54,4 @@ finally:
     td = os.path.join('/verif/.cache', 'target-all-' + hashlib.sha1(wt.encode()).hexdigest()[:8])
     shutil.rmtree(td, ignore_errors=True)
     shutil.rmtree(td.replace('target-all-', 'target-default-'), ignore_errors=True)
+    shutil.rmtree(td.replace('target-all-', 'target-witness-'), ignore_errors=True)
